@@ -9,16 +9,16 @@ W=/tmp/wt/$ID; M=$W/MUTANT
 cd $W
 git checkout -q -- abtem 2>/dev/null; git stash -q 2>/dev/null; git checkout -q -- . 2>/dev/null
 git status --short -- abtem | head -3
-echo "--- demo on clean tree"; /venv/bin/python MUTANT/demo.py > /tmp/intake_clean.log 2>&1; rc_clean=$?; tail -2 /tmp/intake_clean.log
+echo "--- demo on clean tree"; /venv/bin/python MUTANT/demo.py > /tmp/intake_${ID}_clean.log 2>&1; rc_clean=$?; tail -2 /tmp/intake_${ID}_clean.log
 git apply MUTANT/patch.diff || { echo "patch does not apply on clean tree"; exit 2; }
-echo "--- demo on patched tree"; /venv/bin/python MUTANT/demo.py > /tmp/intake_patched.log 2>&1; rc_patched=$?; tail -3 /tmp/intake_patched.log
+echo "--- demo on patched tree"; /venv/bin/python MUTANT/demo.py > /tmp/intake_${ID}_patched.log 2>&1; rc_patched=$?; tail -3 /tmp/intake_${ID}_patched.log
 files=$(git diff --name-only -- abtem | tr '\n' ' ')
 echo "--- changed: $files ($(git diff --stat -- abtem | tail -1))"
 echo "--- baseline (related stable tests) on patched tree: $*"
-/venv/bin/python /root/scratch/run_baseline.py $W "$@" 2>&1 | tail -2 > /tmp/intake_base.log; cat /tmp/intake_base.log
-ok=1; [ $rc_clean -eq 0 ] || ok=0; [ $rc_patched -ne 0 ] || ok=0; grep -q "missing 0" /tmp/intake_base.log || ok=0
+/venv/bin/python /root/scratch/run_baseline.py $W "$@" 2>&1 | tail -2 > /tmp/intake_${ID}_base.log; cat /tmp/intake_${ID}_base.log
+ok=1; [ $rc_clean -eq 0 ] || ok=0; [ $rc_patched -ne 0 ] || ok=0; grep -q "missing 0" /tmp/intake_${ID}_base.log || ok=0
 if [ $ok -eq 1 ]; then
   mkdir -p /verif/seeded/$NAME; cp $M/patch.diff $M/demo.py /verif/seeded/$NAME/; cp $M/meta.json /verif/seeded/$NAME/meta.agent.json 2>/dev/null
   echo "CONFIRMED -> /verif/seeded/$NAME (demo clean rc=$rc_clean, patched rc=$rc_patched)"
 else echo "NOT CONFIRMED (clean rc=$rc_clean patched rc=$rc_patched)"; fi
-rm -f /tmp/intake_*.log
+rm -f /tmp/intake_${ID}_*.log
